@@ -15,8 +15,11 @@ from . import obl as OB
 from .registry import PROOFS, ProofResult
 
 ROOT = os.path.dirname(os.path.dirname(os.path.dirname(os.path.abspath(__file__))))
-EVID = os.path.join(ROOT, "evidence")
-REPL = os.path.join(ROOT, "replays")
+# VERIF_OUT redirects evidence/ and replays/ (used only by tools/seed_matrix.py when it runs the checks against scratch copies
+# with seeded changes, so that those runs never overwrite the evidence of the real tree)
+OUT = os.environ.get("VERIF_OUT") or ROOT
+EVID = os.path.join(OUT, "evidence")
+REPL = os.path.join(OUT, "replays")
 KNOWN = os.path.join(ROOT, "known_findings.json")
 
 
